@@ -528,7 +528,9 @@ pub fn replay_parse(rep: &mut Report, rec: &J) {
 	if exp["ok"].as_bool() == Some(true) {
 		rep.count("accepted");
 		if let Ok(Ok((v, cm))) = guarded(|| Value::parse_str_with(&s, o)) {
-			check_lookups(rep, &ctx, &v);
+			if let Err(p) = guarded(|| check_lookups(rep, &ctx, &v)) {
+				rep.mismatch("C02.lookup", json!({"what": "key lookup on a parsed object panicked", "input": ctx, "panic": p}));
+			}
 			// the parsed value is queried from another thread as well (it is Send + Sync: nothing it needs may stay behind in
 			// the thread that built it)
 			if rep.counters["parse_vectors"] % 16 == 0 && matches!(v, Value::Object(_) | Value::Array(_)) {
